@@ -78,7 +78,17 @@ pub fn bed_contents() -> Vec<Vec<EncChrom>> {
 fn specs(tier: Tier) -> Vec<EncSpec> {
     let quick = tier == Tier::Quick;
     let mut v = vec![];
-    let formats: Vec<(u16, bool)> = vec![(1, false), (2, false), (3, false), (3, true), (4, false), (4, true)];
+    // (version, compressed, total summary omitted although the version allows one)
+    let formats: Vec<(u16, bool, bool)> = vec![
+        (1, false, false),
+        (2, false, false),
+        (3, false, false),
+        (3, true, false),
+        (4, false, false),
+        (4, true, false),
+        (2, false, true),
+        (4, true, true),
+    ];
     let placements = [Placement::LevelOrder, Placement::DepthFirst, Placement::ChildrenFirst, Placement::Padded];
     let fanouts: &[usize] = if quick { &[2, 8] } else { &[2, 3, 8] };
     let chrom_blocks: &[usize] = &[2, 3, 64];
@@ -87,7 +97,7 @@ fn specs(tier: Tier) -> Vec<EncSpec> {
     let mut n = 0usize;
     for (bed, content) in &contents {
         for le in [true, false] {
-            for (version, compress) in &formats {
+            for (version, compress, no_summary) in &formats {
                 for &fanout in fanouts {
                     for placement in placements {
                         for &chrom_block in chrom_blocks {
@@ -118,6 +128,7 @@ fn specs(tier: Tier) -> Vec<EncSpec> {
                                     zoom_blocks_span_chroms: zspan,
                                     trailing_magic: n % 2 == 0,
                                     index_last,
+                                    no_summary: *no_summary,
                                     autosql: if *bed && n % 3 != 0 { Some(crate::wfam::CUSTOM_AS.to_string()) } else { None },
                                 });
                                 n += 1;
@@ -446,6 +457,9 @@ impl Check for C10 {
         if spec.version == 1 {
             out.count("version1_files", 1);
         }
+        if spec.version >= 2 && spec.no_summary {
+            out.count("files_v2plus_without_summary", 1);
+        }
         if spec.chrom_block < spec.chroms.len() {
             out.count("multi_level_chrom_tree_files", 1);
         }
@@ -480,7 +494,7 @@ impl Check for C10 {
     fn space(&self, tier: Tier) -> serde_json::Value {
         let q = tier == Tier::Quick;
         json!({
-            "byte_orders": 2, "version_x_compression": ["v1 raw", "v2 raw", "v3 raw", "v3 zlib", "v4 raw", "v4 zlib"],
+            "byte_orders": 2, "version_x_compression": ["v1 raw", "v2 raw", "v3 raw", "v3 zlib", "v4 raw", "v4 zlib", "v2 raw without total summary", "v4 zlib without total summary"],
             "section_types": "bedGraph, variable step, fixed step, mixed per chromosome; 8 bigWig contents (1-4, 8, 9 and 27 chromosomes), 3 bigBed contents",
             "chrom_tree_block_sizes": if q { vec![2, 3, 64] } else { vec![2, 3, 64] }, "chrom_tree_node_order": ["depth first", "level order"],
             "rtree_fanouts": if q { vec![2, 8] } else { vec![2, 3, 8] },
@@ -525,6 +539,7 @@ pub fn gen_c20(dir: &str, thorough: bool) {
             zoom_blocks_span_chroms: false,
             trailing_magic: true,
             index_last: false,
+            no_summary: false,
             autosql: None,
         };
         let path = format!("{}/w{}.bw", dir, k);
@@ -554,6 +569,7 @@ pub fn gen_c20(dir: &str, thorough: bool) {
             zoom_blocks_span_chroms: false,
             trailing_magic: true,
             index_last: false,
+            no_summary: false,
             autosql: None,
         };
         let path = format!("{}/b{}.bb", dir, k);
